@@ -19,6 +19,8 @@ RULE = ("each case = one address request (getaddrinfo, gethostbyname, gethostbya
 def own(key):
     if key.startswith("addr:"):
         return PROP
+    if key.startswith("search:"):
+        return "C12"
     return C01.own(key)
 
 
@@ -26,6 +28,8 @@ def run(tier, seed, scale=1.0):
     t0 = time.time()
     n = int((30000 if tier == "quick" else 2000000) * scale)
     res = vdriver.explore(common.spec("simnet", "addr", seed), n, chunk=max(250, n // 128), chunk_timeout=900)
+    # the search profile also checks that addresses come from the winning candidate only (addr:* keys)
+    res.merge(vdriver.explore(common.spec("simnet", "search", seed), n, chunk=max(250, n // 128), chunk_timeout=900))
     return common.finish(PROP, tier, seed, "exploration", res, own, RULE, t0, min_conclusive=int(3000 * scale),
                          assumptions=["owner names of address records follow the CNAME chain (c-ares does not check owners, "
                                       "by its own documented choice)"])
